@@ -1,4 +1,5 @@
 import SSVerif.Proofs.Protocol
+import SSVerif.Proofs.ProtocolSys
 /-!
 # C09 — No sequence of API calls corrupts memory, aborts, or leaks
 
@@ -190,6 +191,98 @@ theorem C09_used_iterators_are_live (cs : List Call) (c : Call) (id : Nat)
       · exact absurd rfl hr
     · exact absurd rfl hr
 
+/-! ## two decoders, shared and held objects (system level, `Model/ProtocolSys.lean`) -/
+
+/-- every system state reached by any interleaved history keeps both decoder automata well-formed (so all the
+single-decoder theorems above apply to each instance of an interleaving) -/
+theorem C09_sys_reachable_wf (h : List SysCall) : SysWF (sysRun sys0 h) := sysRun_wf sys0 sysWF_sys0 h
+
+/-- **C09, ledger balance with two decoders and held sub-objects.** For every interleaved history of the two
+decoders — sharing a configuration object, retaining configurations, log-math / front-end / feature objects,
+lattices, alignments and transforms beyond the life of the decoder they came from, freeing either decoder
+first — once both decoders' last references are released and every iterator and every held reference has been
+freed, the ledger of the whole system is empty. -/
+theorem C09_sys_ledger_balanced (h : List SysCall) (hc : SysClosed (sysRun sys0 h)) :
+    sysLedger (sysRun sys0 h) = [] := by
+  have hw := C09_sys_reachable_wf h
+  obtain ⟨ca, cb, h1, h2, h3⟩ := hc
+  have closedEmpty : ∀ x : ApiState, WF x → Closed x → ledger x = [] := by
+    intro x wx cx
+    obtain ⟨h0, hi, hl, ha⟩ := cx
+    obtain ⟨d1, d2, d3, d4, d5, d6⟩ := wx.dead h0
+    have hdag := (wx.noSearch d1).1
+    have hact : x.active = false := by
+      cases hx : x.active
+      · rfl
+      · have := wx.activeIff.mp hx
+        rw [d2] at this; cases this
+    simp [ledger, h0, hi, hl, ha, d1, d3, d4, d5, d6, hdag, hact]
+  simp [sysLedger, closedEmpty _ hw.1 ca, closedEmpty _ hw.2 cb, h1, h2, h3]
+
+/-- **C09, memory / ownership isolation of two decoders, one call.** A call that is not made on decoder `i`
+leaves the whole state of `i` unchanged: protocol state, reference count, search, lattice, aligner, every
+iterator and every lattice / alignment reference obtained from `i`. -/
+theorem C09_instances_disjoint_step (s : Sys) (c : SysCall) (i : Inst) (h : instOf c ≠ some i) :
+    (sysStep s c).1.inst i = s.inst i := sysStep_other_inst s c i h
+
+/-- the calls of instance `i` in an interleaved history -/
+def soloHist (i : Inst) (h : List SysCall) : List SysCall := h.filter (fun c => instOf c == some i)
+
+/-- the returns of instance `i`'s calls along an interleaved history -/
+def retsOf (i : Inst) : Sys → List SysCall → List Ret
+  | _, [] => []
+  | s, c :: cs => (if instOf c == some i then [(sysStep s c).2] else []) ++ retsOf i (sysStep s c).1 cs
+
+theorem ownOnly_inst {c : SysCall} (ho : ownOnly c = true) : ∃ j, instOf c = some j := by
+  cases c with
+  | cfgGram t _ _ => cases t <;> simp_all [ownOnly, instOf]
+  | cfgCall t _ _ _ => cases t <;> simp_all [ownOnly, instOf]
+  | _ => simp_all [ownOnly, instOf]
+
+theorem solo_run (i : Inst) (h : List SysCall) : ∀ (s1 s2 : Sys), SoloRel i s1 s2 → CfgSep s1 →
+    (∀ c ∈ h, ownOnly c = true) →
+    SoloRel i (sysRun s1 h) (sysRun s2 (soloHist i h)) ∧ retsOf i s1 h = sysRets s2 (soloHist i h) := by
+  induction h with
+  | nil => intro s1 s2 hr _ _; exact ⟨hr, rfl⟩
+  | cons c cs ih =>
+    intro s1 s2 hr hs ho
+    have hoc : ownOnly c = true := ho c List.mem_cons_self
+    have hocs : ∀ c' ∈ cs, ownOnly c' = true := fun c' hm => ho c' (List.mem_cons_of_mem _ hm)
+    obtain ⟨j, hj⟩ := ownOnly_inst hoc
+    have hs' := cfgSep_step hs c hoc
+    by_cases hji : j = i
+    · subst hji
+      obtain ⟨hr', hret⟩ := solo_self hr c hj hoc
+      obtain ⟨r1, r2⟩ := ih _ _ hr' hs' hocs
+      have hf : soloHist j (c :: cs) = c :: soloHist j cs := by simp [soloHist, List.filter, hj]
+      rw [hf]
+      refine ⟨by simpa [sysRun] using r1, ?_⟩
+      simp only [retsOf, hj, beq_self_eq_true, if_true, sysRets, List.singleton_append]
+      rw [r2, hret]
+    · have hjo : j = i.other := eq_other_of_ne hji
+      subst hjo
+      have hr' := solo_other hr hs c hj hoc
+      obtain ⟨r1, r2⟩ := ih _ _ hr' hs' hocs
+      have hne : (instOf c == some i) = false := by
+        rw [hj]; simpa using other_ne i
+      have hf : soloHist i (c :: cs) = soloHist i cs := by simp [soloHist, List.filter, hne]
+      rw [hf]
+      refine ⟨by simpa [sysRun] using r1, ?_⟩
+      simp only [retsOf, hne, Bool.false_eq_true, if_false, List.nil_append]
+      exact r2
+
+/-- **C09, memory / ownership isolation of two decoders (`instances_disjoint`).** Take any interleaving `h` of
+calls on two decoders in which each decoder only ever uses configurations made for it (any decoder call, a new
+configuration at init / reinit, `config_*` calls on its own configuration).  Then decoder `i` ends in exactly the
+state, and each of its calls returns exactly the value, of its **solo** history — `h` with the other decoder's
+calls deleted.  (When the user makes the decoders share objects — a held configuration passed to both — the
+hypothesis fails on purpose: a `config_set` through one decoder is visible to the other; `C09_sys_reachable_wf`,
+`C09_sys_ledger_balanced` and `C09_instances_disjoint_step` still hold for such histories.) -/
+theorem C09_instances_disjoint (i : Inst) (h : List SysCall) (ho : ∀ c ∈ h, ownOnly c = true) :
+    (sysRun sys0 h).inst i = (sysRun sys0 (soloHist i h)).inst i ∧ retsOf i sys0 h = sysRets sys0 (soloHist i h) := by
+  obtain ⟨r1, r2⟩ := solo_run i h sys0 sys0 ⟨rfl, rfl⟩ cfgSep_sys0 ho
+  exact ⟨r1.1, r2⟩
+
 /-! ## non-vacuity: concrete histories -/
 
 /-- a complete utterance with queries, an abandoned segment iterator freed after the decoder, N-best,
@@ -227,5 +320,34 @@ is alive the iterator is used in-protocol (hypothesis of `C09_used_iterators_are
 example : (step exStale (.segNext 0 false)).2 = .oop ∧ (step exStale (.segFree 0)).2 = .void ∧
     (step (run init0 [.init .good false, .start, .proc false true, .seg 0 true]) (.segNext 0 false)).2 = .ptr := by
   decide
+
+/-- two decoders interleaved, each with its own configuration (hypothesis of `C09_instances_disjoint`): decoder b's
+returns are those of its solo history -/
+def exTwo : List SysCall :=
+  [.initNew .a true .good false, .initNew .b false .good false, .dec .a .start, .dec .b (.hyp true),
+   .dec .a (.proc false true), .dec .b .start, .cfgGram (.dec .a) true .bad, .dec .a (.endUtt true),
+   .reinitKeep .a, .dec .b (.proc true true), .dec .b (.endUtt false), .dec .b (.hyp true), .reinitKeep .b,
+   .dec .a .free, .dec .b .free]
+
+example : (∀ c ∈ exTwo, ownOnly c = true) ∧
+    retsOf .b sys0 exTwo = [.ptr, .null, .ok, .count, .ok, .ptr, .ok, .rc 0] ∧
+    retsOf .a sys0 exTwo = [.ptr, .ok, .count, .ptr, .ok, .err, .rc 0] ∧
+    SysClosed (sysRun sys0 exTwo) := by decide
+
+/-- a configuration shared by two decoders and held by the user, a lattice with a node iterator and a log-math
+object outliving their decoder, a consumed transform: the history closes and the system ledger is empty -/
+def exShared : List SysCall :=
+  [.initNew .a true .good false, .cfgRetainDec .a 0, .cfgRetainHeld 0 1, .initHeld .b 0,
+   .cfgGram (.dec .b) true .bad, .dec .a .start, .dec .a (.proc false true), .dec .a (.latRetain 2 true),
+   .dec .a (.lnode 300 (.user 2) true true), .subRetain .a .lmath 0, .mllrRead 0 true, .dec .a (.endUtt false),
+   .mllrApply .a 0 false, .dec .a .free, .dec .a (.lnodeNext 300 false), .reinitKeep .b, .dec .b .free,
+   .dec .a (.latFree 2), .dec .a (.lnodeFree 300), .subUse .lmath 0, .subFree .lmath 0, .cfgUse 1, .cfgFree 1]
+
+example : SysClosed (sysRun sys0 exShared) ∧ sysLedger (sysRun sys0 exShared) = [] ∧
+    sysRets sys0 exShared = [.ptr, .ptr, .ptr, .ptr, .ptr, .ok, .count, .ptr, .ptr, .ptr, .ptr, .ok, .ptr, .rc 0,
+      .ptr, .err, .rc 0, .void, .void, .void, .void, .void, .void] := by decide
+
+/-- after `latFree` of the last reference the node iterator is stale: using it is out-of-protocol -/
+example : (sysStep (sysRun sys0 (exShared.take 18)) (.dec .a (.lnodeNext 300 false))).2 = .oop := by decide
 
 end SSVerif.Protocol
